@@ -81,6 +81,8 @@ func (Precompile).EmitApprovalEvent
 // denomination, no recipient restriction, expiring ApprovalExpiration after the block time. A non-positive amount and an amount
 // beyond 256 bits are refused with nothing changed. No other grant changes.
 func (Precompile).createAuthorization
+    // the sdk.Coins{{denom, amount}} literal goes straight into SendAuthorization.ValidateBasic, which refuses non-positive amounts
+    allow coinslit
     requires nonnil: amount != nil
     let key = gkey(addr_bytes(grantee), addr_bytes(granter), glob_erc20_SendMsgURL)
     let amt = old(*amount)
@@ -202,6 +204,8 @@ func (Precompile).decreaseAllowance
 //    denominations / allow list / expiration are kept, the grant is deleted when nothing is left; no other grant changes;
 //  * refusals before the point of no return (bad amount, no grant, overspend, recipient not allowed) change nothing.
 func (Precompile).transfer
+    // the sdk.Coins{{denom, amount}} literal goes straight into MsgSend.ValidateBasic, which refuses non-positive amounts
+    allow coinslit
     requires wf: contract != nil && method != nil && stateDB != nil && amount != nil && bitlen(*amount) <= 256 && ctx_height(ctx) >= 0
             && len(p.ABI.Events["Transfer"].Inputs) == 3 && len(p.ABI.Events["Approval"].Inputs) == 3
     let spender = old(contract.CallerAddress)
